@@ -52,6 +52,22 @@ Definition run_old (debug : bool) (inp : list Z) : list Z :=
   | _ => [9]
   end.
 
+(* cost-table part.  input: B op_1..op_n (opcode ids of the executed trace of the unlimited render)
+   output: 7 (unknown opcode) | ok(0/1) consumed remaining asked total
+   asked = number of instructions about which the tracker is consulted under budget B *)
+Definition run_trace (inp : list Z) : list Z :=
+  match inp with
+  | B :: ops =>
+      match stream_costs ops with
+      | None => [7]
+      | Some costs =>
+          let '(pre, t, ok) := watch track (new B) costs in
+          [if ok then 0 else 1; consumed t; get_remaining t; lenZ pre + (if ok then 0 else 1); total costs]
+      end
+  | _ => [9]
+  end.
+
 Open Scope string_scope.
 Definition runners : list (string * (list Z -> list Z)) :=
-  [ ("c13", run); ("c13-spec", spec); ("c13-old-debug", run_old true); ("c13-old-release", run_old false) ].
+  [ ("c13", run); ("c13-spec", spec); ("c13-old-debug", run_old true); ("c13-old-release", run_old false);
+    ("c13-trace", run_trace) ].
